@@ -472,8 +472,26 @@ def _name_match(uname, pat):
     return uname == pat
 
 
+_PLAN = None
+
+
+def quick_plan():
+    """quick_plan.json (vp/mkplan.py): per property the units of the quick tier; absent => all units"""
+    global _PLAN
+    if _PLAN is None:
+        p = os.path.join(VERIF, "quick_plan.json")
+        try:
+            _PLAN = json.load(open(p)).get("props", {})
+        except Exception:
+            _PLAN = {}
+    return _PLAN
+
+
 def units_for(mods, prop=None, module=None, name=None, tier="quick"):
     out = []
+    sel = None
+    if tier != "thorough" and prop and prop in quick_plan():
+        sel = set(quick_plan()[prop])
     for m, spec in mods.items():
         if module and m != module:
             continue
@@ -483,6 +501,8 @@ def units_for(mods, prop=None, module=None, name=None, tier="quick"):
             if prop and prop not in u.get("props", []):
                 continue
             if u.get("tier") == "thorough" and tier != "thorough":
+                continue
+            if sel is not None and ("%s/%s" % (m, u["name"])) not in sel:
                 continue
             out.append((spec, u))
             if tier == "thorough" and spec.get("thorough_assert_pass") and not u.get("no_assert_pass"):
